@@ -697,6 +697,176 @@ Proof.
           * pose proof (chain_ne c (mem s) (q :: t') _ _ ltac:(discriminate) Hch). simpl. lia.
         + destruct up as [|q up']; [congruence|]. inversion Hl; subst q t.
           destruct lo as [|r lo']; [congruence|].
+          cbn [length]. rewrite app_length. cbn [length].
+          replace (end_ s + snd p =? front s) with false by lia.
+          cbn [negb]. lia. }
+    destruct Hlen2 as (Hlen2 & Hh).
+    unfold hdr_in. replace (end_ s + hdr <=? Size c) with true by lia. cbn [negb fst snd].
+    rewrite Hlen2, eqb_reflx.
+    eexists. split; [reflexivity|]. right. split; [discriminate|]. split; auto.
+Qed.
+
+Lemma sim_reset strict c s mo : wf c -> Live c s mo -> sim_goal strict c s mo Reset.
+Proof.
+  intros Hwf (Hd & HR). pose proof HR as (Hlm & Hls & Hsh & Hint & Hok & Hcur).
+  unfold sim_goal, mstep. rewrite Hd. cbn [step].
+  destruct (fifo mo) as [|pc t] eqn:Hfifo.
+  2:{ eexists. split; [reflexivity|]. left. reflexivity. }
+  unfold do_reset, hdr_in. unfold wf in Hwf. replace (0 + hdr <=? Size c) with true by lia. cbn [fst snd].
+  eexists. split; [reflexivity|]. right. split; [discriminate|]. split; [reflexivity|].
+  splitR.
+  - rewrite mark_length. auto.
+  - unfold fresh. apply repeat_length.
+  - split; [|split]; cbn [front end_]; try lia. left. auto.
+  - constructor.
+  - intros i b Hi. unfold fresh in Hi. rewrite nth_fresh in Hi. discriminate.
+  - intros i. apply nth_fresh.
+Qed.
+
+Lemma sim_dump strict c s mo : wf c -> Live c s mo -> sim_goal strict c s mo Dump.
+Proof.
+  intros Hwf (Hd & HR). pose proof HR as (Hlm & Hls & Hsh & Hint & Hok & Hcur).
+  unfold sim_goal, mstep. rewrite Hd. cbn [step fst snd].
+  rewrite Hlm, Nat.eqb_refl. cbn [negb].
+  replace (forallb (fun pc => list_eqb (slice (mem s) (fst pc) (length (snd pc))) (snd pc)) (fifo mo)) with true.
+  2:{ symmetry. apply forallb_forall. intros pc Hin. unfold intact in Hint. rewrite Forall_forall in Hint.
+      rewrite (Hint pc Hin). apply list_eqb_refl. }
+  cbn [negb].
+  replace (agree (shadow mo) 0 (mem s)) with true.
+  2:{ symmetry. unfold agree. apply forallb_forall. intros k Hk. cbn [Nat.add].
+      destruct (nth k (shadow mo) None) eqn:E; auto. apply N.eqb_eq. symmetry. apply Hok. auto. }
+  cbn [negb].
+  eexists. split; [reflexivity|]. right. split; [discriminate|]. split; auto.
+Qed.
+
+Lemma sim_st strict c s mo : wf c -> Live c s mo -> sim_goal strict c s mo St.
+Proof.
+  intros Hwf (Hd & HR). unfold sim_goal, mstep. rewrite Hd. cbn [step fst snd].
+  eexists. split; [reflexivity|]. right. split; [discriminate|]. split; auto.
+Qed.
+
+Lemma step_sim strict c s mo o : wf c -> Live c s mo -> good strict c o -> sim_goal strict c s mo o.
+Proof.
+  intros Hwf HL Hg. destruct o.
+  - apply sim_alloc; auto.
+  - apply sim_write; auto.
+  - apply sim_push; auto.
+  - apply sim_peek; auto.
+  - apply sim_pop; auto.
+  - apply sim_more; auto.
+  - apply sim_reset; auto.
+  - apply sim_dump; auto.
+  - apply sim_st; auto.
+Qed.
+
+Lemma init_live c : wf c -> Live c (init c) (minit (Size c)).
+Proof.
+  intros Hwf. unfold wf in Hwf. unfold init, do_reset, hdr_in.
+  replace (0 + hdr <=? Size c) with true by lia.
+  split; [reflexivity|]. unfold minit. splitR.
+  - rewrite mark_length. apply repeat_length.
+  - apply repeat_length.
+  - split; [|split]; cbn [front end_]; try lia. left. auto.
+  - constructor.
+  - intros i b Hi. rewrite nth_fresh in Hi. discriminate.
+  - intros i. apply nth_fresh.
+Qed.
+
+(* ------------------------------------------------------------------ whole traces *)
+
+Lemma monitor_dead strict lim size o tr : forall mo pos, dead mo = true ->
+  monitor_from strict lim size o mo pos tr = None.
+Proof.
+  induction tr as [|[op_ r] t IH]; intros mo pos Hd; simpl; auto.
+  unfold mstep. rewrite Hd. apply IH. auto.
+Qed.
+
+Lemma monitor_live strict c ops : wf c -> Forall (good strict c) ops ->
+  forall s mo pos, Live c s mo ->
+  monitor_from strict (lmod c) (Size c) (ovh c) mo pos (run_from c s ops) = None.
+Proof.
+  intros Hwf Hg. induction Hg as [|o t Ho Ht IH]; intros s mo pos HL; simpl; auto.
+  destruct (step_sim strict c s mo o Hwf HL Ho) as (mo' & Hm & Hnext).
+  destruct (step c s o) as [s' r] eqn:Hst. cbn [fst snd] in *. simpl. rewrite Hm.
+  destruct Hnext as [Hdead|(Hnf & HL')].
+  - apply monitor_dead. auto.
+  - replace (is_fault r) with false by (destruct r; try reflexivity; congruence).
+    apply IH. auto.
+Qed.
+
+Lemma good_false c ops : Forall (good false c) ops.
+Proof. apply Forall_forall. intros o _ H. discriminate. Qed.
+
+(* every trace of the model is accepted by the monitor, except for the empty-ring clause *)
+Theorem monitor_accepts_model c ops : wf c ->
+  monitor false (lmod c) (Size c) (ovh c) (run c ops) = None.
+Proof.
+  intros Hwf. unfold monitor, run. apply monitor_live; auto using good_false, init_live.
+Qed.
+
+Lemma good_true c ops : alloc_sizes_le (Size c / 2) ops -> Forall (good true c) ops.
+Proof.
+  unfold alloc_sizes_le. intros H. eapply Forall_impl; [|exact H].
+  intros o Ho _. destruct o; auto.
+  pose proof (Nat.mul_div_le (Size c) 2 ltac:(lia)). lia.
+Qed.
+
+(* ... and including it as long as no request exceeds half the storage *)
+Theorem monitor_strict_accepts_model c ops : wf c -> alloc_sizes_le (Size c / 2) ops ->
+  monitor true (lmod c) (Size c) (ovh c) (run c ops) = None.
+Proof.
+  intros Hwf Hs. unfold monitor, run. apply monitor_live; auto using good_true, init_live.
+Qed.
+
+(* ------------------------------------------------------------------ the clauses, stated directly *)
+
+(* memory safety: a history that stays inside the operation discipline to its end never faults
+   (no access outside [0,Size), no failing assert) *)
+Lemma mon_final_dead strict lim size o tr : forall mo, dead mo = true -> dead (mon_final strict lim size o mo tr) = true.
+Proof.
+  induction tr as [|[op_ r] t IH]; intros mo Hd; simpl; auto.
+  apply IH. unfold mstep. rewrite Hd. auto.
+Qed.
+
+Lemma no_fault_live c ops : wf c -> forall s mo, Live c s mo ->
+  dead (mon_final false (lmod c) (Size c) (ovh c) mo (run_from c s ops)) = false ->
+  Forall (fun x => snd x <> OFault /\ snd x <> OSkipped) (run_from c s ops).
+Proof.
+  intros Hwf. induction ops as [|o t IH]; intros s mo HL Hfin; [constructor|].
+  destruct (step_sim false c s mo o Hwf HL ltac:(intros H; discriminate)) as (mo' & Hm & Hnext).
+  cbn [run_from] in *.
+  destruct (step c s o) as [s' r] eqn:Hst. cbn [fst snd] in *.
+  cbn [mon_final] in Hfin. rewrite Hm in Hfin. cbn [snd] in Hfin.
+  destruct Hnext as [Hdead|(Hnf & HL')].
+  - rewrite mon_final_dead in Hfin by auto. discriminate.
+  - replace (is_fault r) with false in * by (destruct r; try reflexivity; congruence).
+    constructor; [|apply (IH s' mo'); auto].
+    cbn [snd]. split; auto. intros ->.
+    destruct o; simpl in Hst; repeat match type of Hst with context [if ?b then _ else _] => destruct b end;
+      try (inversion Hst; fail).
+    + destruct (alloc_front c s n); inversion Hst.
+    + destruct (do_reset c (mem s)); inversion Hst.
+Qed.
+
+Theorem no_fault_in_discipline c ops : wf c ->
+  dead (mon_final false (lmod c) (Size c) (ovh c) (minit (Size c)) (run c ops)) = false ->
+  Forall (fun x => snd x <> OFault /\ snd x <> OSkipped) (run c ops).
+Proof. intros Hwf. apply no_fault_live; auto using init_live. Qed.
+
+(* FIFO refinement: inside the discipline the monitor's FIFO evolves as the abstract queue ... *)
+Lemma mstep_contents strict lim size o mo op_ r mo' :
+  mstep strict lim size o mo op_ r = (Ok, mo') -> dead mo' = false ->
+  contents mo' = fifo_spec (contents mo) op_ r.
+Proof.
+  unfold mstep. intros H Hd.
+  destruct (dead mo) eqn:Hdm; [inversion H; congruence|].
+  destruct op_; destruct r; cbn [fifo_spec];
+    repeat (match type of H with
+            | context [match ?x with _ => _ end] => destruct x eqn:?
+            end; try discriminate);
+    inversion H; subst; cbn [kill dead] in Hd; try discriminate; unfold contents; cbn [fifo]; auto.
+  - rewrite map_app. reflexivity.
+  - match goal with E : fifo mo = _ |- _ => rewrite E end. reflexivity.
 
 Show.
 Abort.
